@@ -3,9 +3,11 @@ package wire
 // [uQUIC] This file adds uQUIC-specific extensions to TransportParameters.
 
 import (
+	"math"
 	"time"
 
 	"github.com/refraction-networking/uquic/internal/protocol"
+	"github.com/refraction-networking/uquic/quicvarint"
 	tls "github.com/refraction-networking/utls"
 )
 
@@ -13,29 +15,77 @@ import (
 // (from QUICTransportParametersExtension) and stores the marshaled bytes as ClientOverride
 // so that Marshal/MarshalForSessionTicket reproduce the exact user-specified encoding.
 func (tp *TransportParameters) PopulateFromUQUIC(quicparams tls.TransportParameters) {
+	// The record has to say what a peer reads from the bytes we send: a parameter that is not in the
+	// list has its protocol default (as in unmarshal), not the zero value.
+	tp.AckDelayExponent = protocol.DefaultAckDelayExponent
+	tp.MaxAckDelay = protocol.DefaultMaxAckDelay
+	tp.MaxDatagramFrameSize = protocol.InvalidByteCount
+	tp.ActiveConnectionIDLimit = protocol.DefaultActiveConnectionIDLimit
+	tp.MaxUDPPayloadSize = protocol.MaxByteCount
+
+	// numeric reads the value of an integer-valued parameter from its wire encoding, whatever Go type
+	// carries it (tls.InitialMaxData, a tls.FakeQUICTransportParameter with that ID, ...).
+	numeric := func(param tls.TransportParameter) (uint64, bool) {
+		b := param.Value()
+		v, n, err := quicvarint.Parse(b)
+		return v, err == nil && n == len(b)
+	}
+	// duration converts a count of unit to a time.Duration, saturating instead of wrapping around
+	duration := func(v uint64, unit time.Duration) time.Duration {
+		if v > uint64(math.MaxInt64/int64(unit)) {
+			return time.Duration(math.MaxInt64)
+		}
+		return time.Duration(v) * unit
+	}
+
 	for pIdx, param := range quicparams {
-		switch param.ID() {
-		case uint64(maxIdleTimeoutParameterID):
-			tp.MaxIdleTimeout = time.Duration(param.(tls.MaxIdleTimeout)) * time.Millisecond
-		case uint64(initialMaxDataParameterID):
-			tp.InitialMaxData = protocol.ByteCount(param.(tls.InitialMaxData))
-		case uint64(initialMaxStreamDataBidiLocalParameterID):
-			tp.InitialMaxStreamDataBidiLocal = protocol.ByteCount(param.(tls.InitialMaxStreamDataBidiLocal))
-		case uint64(initialMaxStreamDataBidiRemoteParameterID):
-			tp.InitialMaxStreamDataBidiRemote = protocol.ByteCount(param.(tls.InitialMaxStreamDataBidiRemote))
-		case uint64(initialMaxStreamDataUniParameterID):
-			tp.InitialMaxStreamDataUni = protocol.ByteCount(param.(tls.InitialMaxStreamDataUni))
-		case uint64(initialMaxStreamsBidiParameterID):
-			tp.MaxBidiStreamNum = protocol.StreamNum(param.(tls.InitialMaxStreamsBidi))
-		case uint64(initialMaxStreamsUniParameterID):
-			tp.MaxUniStreamNum = protocol.StreamNum(param.(tls.InitialMaxStreamsUni))
-		case uint64(maxAckDelayParameterID):
-			tp.MaxAckDelay = time.Duration(param.(tls.MaxAckDelay)) * time.Millisecond
-		case uint64(disableActiveMigrationParameterID):
+		id := transportParameterID(param.ID())
+		switch id {
+		case maxIdleTimeoutParameterID,
+			maxUDPPayloadSizeParameterID,
+			initialMaxDataParameterID,
+			initialMaxStreamDataBidiLocalParameterID,
+			initialMaxStreamDataBidiRemoteParameterID,
+			initialMaxStreamDataUniParameterID,
+			initialMaxStreamsBidiParameterID,
+			initialMaxStreamsUniParameterID,
+			ackDelayExponentParameterID,
+			maxAckDelayParameterID,
+			activeConnectionIDLimitParameterID,
+			maxDatagramFrameSizeParameterID:
+			v, ok := numeric(param)
+			if !ok {
+				continue // not a single varint: the peer will not read a value from it either
+			}
+			switch id {
+			case maxIdleTimeoutParameterID:
+				tp.MaxIdleTimeout = duration(v, time.Millisecond)
+			case maxUDPPayloadSizeParameterID:
+				tp.MaxUDPPayloadSize = protocol.ByteCount(v)
+			case initialMaxDataParameterID:
+				tp.InitialMaxData = protocol.ByteCount(v)
+			case initialMaxStreamDataBidiLocalParameterID:
+				tp.InitialMaxStreamDataBidiLocal = protocol.ByteCount(v)
+			case initialMaxStreamDataBidiRemoteParameterID:
+				tp.InitialMaxStreamDataBidiRemote = protocol.ByteCount(v)
+			case initialMaxStreamDataUniParameterID:
+				tp.InitialMaxStreamDataUni = protocol.ByteCount(v)
+			case initialMaxStreamsBidiParameterID:
+				tp.MaxBidiStreamNum = protocol.StreamNum(v)
+			case initialMaxStreamsUniParameterID:
+				tp.MaxUniStreamNum = protocol.StreamNum(v)
+			case ackDelayExponentParameterID:
+				tp.AckDelayExponent = uint8(min(v, math.MaxUint8))
+			case maxAckDelayParameterID:
+				tp.MaxAckDelay = duration(v, time.Millisecond)
+			case activeConnectionIDLimitParameterID:
+				tp.ActiveConnectionIDLimit = v
+			case maxDatagramFrameSizeParameterID:
+				tp.MaxDatagramFrameSize = protocol.ByteCount(v)
+			}
+		case disableActiveMigrationParameterID:
 			tp.DisableActiveMigration = true
-		case uint64(activeConnectionIDLimitParameterID):
-			tp.ActiveConnectionIDLimit = uint64(param.(tls.ActiveConnectionIDLimit))
-		case uint64(initialSourceConnectionIDParameterID):
+		case initialSourceConnectionIDParameterID:
 			srcConnIDOverride, ok := param.(tls.InitialSourceConnectionID)
 			if ok {
 				if len(srcConnIDOverride) > 0 {
@@ -47,8 +97,6 @@ func (tp *TransportParameters) PopulateFromUQUIC(quicparams tls.TransportParamet
 					quicparams[pIdx] = tls.InitialSourceConnectionID(tp.InitialSourceConnectionID.Bytes())
 				}
 			}
-		case uint64(maxDatagramFrameSizeParameterID):
-			tp.MaxDatagramFrameSize = protocol.ByteCount(param.(tls.MaxDatagramFrameSize))
 		default:
 			// ignore unknown parameters
 			continue
